@@ -46,6 +46,7 @@ type simTask struct {
 }
 
 type simCluster struct {
+	cfg *cfgShadow // membership-changing runs checked against Abs/CfgRaft.v (no crashes, no snapshots, no cut requests)
 	lastInstall *simMsg // the install-snapshot request delivered last (a copy marked as duplicate)
 	rnd    *rand.Rand
 	w      *caseWriter
@@ -417,6 +418,9 @@ func (c *simCluster) run(n *simNode, desc, ev string, fn func() (response, []str
 	if c.abs != nil {
 		c.abs.before(n)
 	}
+	if c.cfg != nil {
+		c.cfg.before(n)
+	}
 	if c.imager != nil {
 		inner := fn
 		// entries up to this bound are not legitimately removed by the event
@@ -469,6 +473,15 @@ func (c *simCluster) run(n *simNode, desc, ev string, fn func() (response, []str
 			hint.granted = o.resp != nil && o.resp.getResult() == success
 		}
 		c.abs.record(c, n, ev, hint, false)
+	}
+	if c.cfg != nil && o.panicv == nil {
+		if hintp != nil && hintp.kind != "" {
+			hint = *hintp
+		}
+		if hint.kind == "votereq" || hint.kind == "recv" {
+			hint.granted = o.resp != nil && o.resp.getResult() == success
+		}
+		c.cfg.record(c, n, ev, hint)
 	}
 	if o.panicv != nil {
 		c.crash(n.r.nid, false)
@@ -669,6 +682,9 @@ func (c *simCluster) monitors(n *simNode) {
 // ---- crash / restart ----
 
 func (c *simCluster) crash(id uint64, emit bool) {
+	if c.cfg != nil {
+		return // the abstract protocol with membership changes has no crash step: these runs have none
+	}
 	n := c.nodes[id]
 	pre := ""
 	if emit && !n.dead {
@@ -988,7 +1004,7 @@ func (c *simCluster) deliver(i int) {
 	}
 	if !m.isResp {
 		var res simResp
-		if c.abs != nil {
+		if c.abs != nil || c.cfg != nil {
 			switch m.kind {
 			case rpcVote:
 				q := &voteReq{}
@@ -1009,7 +1025,7 @@ func (c *simCluster) deliver(i int) {
 			dst.r.timer.stop() // whether the handler re-arms the election timer then shows in the state
 		}
 		wire, lit, cut := m.wire, m.lit, false
-		if m.kind == rpcAppendEntries && !m.dup && (c.abs == nil || absCutEnabled) && c.rnd.Intn(14) == 0 {
+		if m.kind == rpcAppendEntries && !m.dup && (c.abs == nil || absCutEnabled) && c.cfg == nil && c.rnd.Intn(14) == 0 {
 			// the connection breaks inside the request
 			if w2, es2, ok := cutAppendWire(c.rnd, m.wire); ok {
 				q, _ := decodeAppendWire(m.wire)
